@@ -599,7 +599,8 @@ func runTsRun(tier string, seed int64, model string, replay string) *corr.Result
 	seen := map[string]bool{}
 	nontrivial := 0
 	ioErrs := 0
-	for i, c := range cases {
+	loopBroken := false // pass 2 only: the script loop misbehaves on plain scripts, UpdateScripts cannot be judged
+	process := func(i int, c *tcase) {
 		if impl[i].ioErr != "" || (rerun[i] != nil && rerun[i].ioErr != "") || (plain[i] != nil && plain[i].ioErr != "") || cliExit[i] == -1 {
 			// the harness's own temp files failed (disk, descriptor limits, a cleaner): not evidence either way
 			ioErrs++
@@ -607,7 +608,7 @@ func runTsRun(tier string, seed int64, model string, replay string) *corr.Result
 			if ioErrs <= 3 {
 				res.Observations = append(res.Observations, "harness I/O error, case skipped: "+impl[i].ioErr)
 			}
-			continue
+			return
 		}
 		in := encodeInput(c)
 		key := c.fl.String() + " " + string(c.file)
@@ -634,7 +635,7 @@ func runTsRun(tier string, seed int64, model string, replay string) *corr.Result
 			p := plain[i]
 			pLine := p.String(c.file)
 			if mo0, _, ok := parseModel(allOut[plainIdx[i]], c.file); !ok {
-				res.Disagree(allReqs[plainIdx[i]], pLine, allOut[plainIdx[i]])
+				res.DisagreeFor(c01, allReqs[plainIdx[i]], pLine, allOut[plainIdx[i]])
 				plainBad = true
 			} else if ms := mo0.String(c.file); ms != pLine {
 				res.DisagreeFor(c01, allReqs[plainIdx[i]], pLine+" "+p.note, ms)
@@ -654,13 +655,17 @@ func runTsRun(tier string, seed int64, model string, replay string) *corr.Result
 		if plainBad {
 			// the script loop itself misbehaves on this script: nothing can be said about UpdateScripts here
 			res.Distribution["c16:not-judged-plain-run-wrong"]++
-			continue
+			return
+		}
+		if c.fl.update && loopBroken {
+			res.Distribution["c16:not-judged-script-loop-wrong"]++
+			return
 		}
 
 		// -- model vs implementation
 		mo, mexit, ok := parseModel(modelOut[i], c.file)
 		if !ok {
-			res.Disagree(reqs[i], implLine, modelOut[i])
+			res.DisagreeFor(owner, reqs[i], implLine, modelOut[i])
 			res.Distribution["model:"+strings.SplitN(modelOut[i], " ", 2)[0]]++
 		} else {
 			if ms := mo.String(c.file); ms != implLine {
@@ -671,8 +676,8 @@ func runTsRun(tier string, seed int64, model string, replay string) *corr.Result
 				}
 			}
 			if cliExit[i] != -100 {
-				if cliExit[i] != mexit {
-					res.DisagreeFor(owner, reqs[i]+" [cli]", fmt.Sprintf("exit=%d", cliExit[i]), fmt.Sprintf("exit=%d", mexit))
+				if cliExit[i] != mexit && mo.verdict == impl[i].verdict {
+					res.DisagreeFor(c01, reqs[i]+" [cli]", fmt.Sprintf("exit=%d", cliExit[i]), fmt.Sprintf("exit=%d", mexit))
 				}
 				if !bytes.Equal(cliFile[i], mo.file) {
 					res.DisagreeFor(c16, reqs[i]+" [cli file]", corr.Hx(cliFile[i]), corr.Hx(mo.file))
@@ -683,19 +688,25 @@ func runTsRun(tier string, seed int64, model string, replay string) *corr.Result
 		// -- oracle 1: the generator's expectation
 		if c.exp != nil {
 			res.OracleChecked[owner[0]]++
-			if es := c.exp.String(c.file); es != implLine {
+			es := c.exp.String(c.file)
+			if c.c16 != nil && c.c16.unquotable && !c.c16.otherFail {
+				// the FAIL entry of a refused Quote carries the current ts.lineno: a script-loop detail
+				e2, g2 := *c.exp, impl[i]
+				e2.line, g2.line = -1, -1
+				if e2.String(c.file) == g2.String(c.file) {
+					es = implLine
+				}
+			}
+			if es != implLine {
 				res.Violate(owner[0], in, "expected "+es+" got "+implLine+" "+impl[i].note+" ["+c.recipe+"]", classOf(c.exp, &impl[i]))
 			}
 		}
-		// -- oracle 2: the exit status of the standalone command
+		// -- oracle 2 (C01): the exit status of the standalone command is the one that belongs to the verdict
+		// RunT reported for the same run (what the verdict should have been is oracle 1's business)
 		if cliExit[i] != -100 {
-			res.OracleChecked[owner[0]]++
-			want := verdictExit(impl[i].verdict)
-			if c.exp != nil {
-				want = verdictExit(c.exp.verdict)
-			}
-			if cliExit[i] != want {
-				res.Violate(owner[0], in, fmt.Sprintf("cmd/testscript exit status %d, want %d (RunT verdict %s): %s", cliExit[i], want, impl[i].verdict, lastLines(cliOut[i], 3)), "cli-exit-status")
+			res.OracleChecked["C01"]++
+			if want := verdictExit(impl[i].verdict); cliExit[i] != want {
+				res.Violate("C01", in, fmt.Sprintf("cmd/testscript exit status %d, want %d (RunT verdict %s): %s", cliExit[i], want, impl[i].verdict, lastLines(cliOut[i], 3)), "cli-exit-status")
 			}
 		}
 		// -- oracle 3 (C16): frame + fix-point, stated on the parsed archives
@@ -703,12 +714,12 @@ func runTsRun(tier string, seed int64, model string, replay string) *corr.Result
 			c16Oracle(res, c, in, impl[i], rerun[i])
 		}
 	}
-
-	if ioErrs*50 > len(cases) {
-		res.Disagree("<harness>", fmt.Sprintf("%d of %d cases hit I/O errors in the harness's temp dir", ioErrs, len(cases)), "")
+	// pass 1: scripts without UpdateScripts, and the multi-file invocations — the script loop (C01)
+	for i, c := range cases {
+		if !c.fl.update {
+			process(i, c)
+		}
 	}
-
-	// ---- several scripts in one cmd/testscript invocation
 	if replay == "" {
 		groups := 60
 		if tier == "thorough" {
@@ -717,6 +728,27 @@ func runTsRun(tier string, seed int64, model string, replay string) *corr.Result
 		multiCLI(res, r, rng, cases, impl, model, groups, nil)
 	} else if replayGroup != nil {
 		multiCLI(res, r, rng, cases, impl, model, 1, replayGroup)
+	}
+	// pass 2: scripts with UpdateScripts (C16) — judged only if pass 1 found the loop in order
+	for _, v := range res.Violations {
+		if v.Property == "C01" {
+			loopBroken = true
+		}
+	}
+	if res.DisagreementsBy["C01"]+res.DisagreementsBy["*"] > 0 {
+		loopBroken = true
+	}
+	if loopBroken {
+		res.Observations = append(res.Observations, "the script loop (C01) misbehaves on scripts without UpdateScripts: the UpdateScripts cases of this run are not judged (C16)")
+	}
+	for i, c := range cases {
+		if c.fl.update {
+			process(i, c)
+		}
+	}
+
+	if ioErrs*50 > len(cases) {
+		res.Disagree("<harness>", fmt.Sprintf("%d of %d cases hit I/O errors in the harness's temp dir", ioErrs, len(cases)), "")
 	}
 
 	res.Evaluations = len(cases)
